@@ -1,6 +1,7 @@
 (* Non-vacuity of the assembly theorem: a concrete altair state at the last slot of epoch 7 (tiny preset: 8 slots per
    epoch, sync-committee period 8 epochs, so the rotation fires) with the context computed from the state satisfies
-   EpochInv and MidBounds; four validators, one slashed, partial participation, an inactivity leak. *)
+   EpochInv and MidBounds; four validators, one slashed, partial participation, an inactivity leak; balances, scores, one effective balance and
+   the next sync committee change. *)
 From Coq Require Import String.
 From Coq Require Import NArith ZArith List Lia Bool.
 From RecordUpdate Require Import RecordSet.
@@ -17,7 +18,11 @@ Local Open Scope N_scope.
 
 Definition asm_E : Env := tiny_env.
 Definition asm_pk_ok (_ : bytes) : bool := true.
-Definition asm_state : BeaconState := w_ok.
+(* w_ok of AltairWitness.v (slot 63) after the slot's root caching: the state ProcessEpoch runs on *)
+Definition asm_pre : BeaconState := w_ok.
+Definition asm_state : BeaconState := Eval vm_compute in Transition.process_slot tiny_env Altair w_ok.
+Lemma asm_state_eq : Transition.process_slot asm_E Altair asm_pre = asm_state.
+Proof. vm_compute. reflexivity. Qed.
 
 (* the context as computed from the state: what C08 says zrnt's live context holds *)
 Definition asm_ctx (st : BeaconState) : EpochCtx :=
@@ -27,7 +32,14 @@ Definition asm_ctx (st : BeaconState) : EpochCtx :=
                         (fun i => option_map v_pubkey (nthN (validators st) i)))
              (fun _ => Some 0).
 
-Ltac by_vm := vm_compute; first [reflexivity | discriminate | (intros; discriminate)].
+(* vm_compute only on closed, binder-free goals (strong normalisation under a binder over N arithmetic explodes) *)
+Ltac by_vm :=
+  idtac;
+  lazymatch goal with
+  | |- forall _, _ => fail
+  | |- Forall _ _ => fail
+  | |- _ => timeout 60 (vm_compute; first [reflexivity | discriminate])
+  end.
 Ltac each_in Hv tac := repeat (destruct Hv as [<-|Hv]; [tac|]); destruct Hv.
 
 Lemma asm_bytes : forall m, ShuffleArith.bytes_ok (Hash asm_E m).
@@ -46,15 +58,15 @@ Proof.
   - intros _. repeat split; apply flag_boundsb_sound; by_vm.
   - constructor; try by_vm.
     + constructor; try by_vm. intros v Hv. each_in Hv ltac:(first [left; reflexivity | right; by_vm]).
-    + intros v Hv Hs. each_in Hv ltac:(first [discriminate Hs | by_vm]).
+    + intros v Hv Hs. each_in Hv ltac:(first [discriminate Hs | intros Hx; discriminate Hx]).
     + intros v Hv. each_in Hv by_vm.
     + intros v Hv. each_in Hv by_vm.
-    + repeat constructor.
+    + repeat (constructor; [by_vm|]). constructor.
   - intros _. constructor; try by_vm.
     + intros i v H. cbn [asm_ctx cx_sync sy_pubkey_of]. rewrite H. reflexivity.
     + intros v _. reflexivity.
     + exact asm_bytes.
-    + repeat constructor.
+    + repeat (constructor; [by_vm|]). constructor.
   - by_vm.
   - by_vm.
 Qed.
@@ -73,9 +85,11 @@ Example assembly_nonvacuous :
   EpochInv asm_E asm_pk_ok Altair asm_state (asm_ctx asm_state) /\ MidBounds asm_E Altair asm_state /\
   (exists st', Epoch.process_epoch asm_E Altair asm_state = Some st' /\
                EpochPipeline.process_epoch asm_E asm_pk_ok PROPOSER_FUEL Altair (asm_ctx asm_state) asm_state = Ok st') /\
-  option_map (fun s => (balances s, inactivity_scores s, length (sc_pubkeys (next_sync_committee s))))
+  option_map (fun s => (balances s, inactivity_scores s, length (sc_pubkeys (next_sync_committee s)),
+                        map v_effective_balance (validators s)))
              (Epoch.process_epoch asm_E Altair asm_state)
-  = Some ([32000000000; 30998465585; 29995468163; 16997511401], [0; 8; 44; 1004], 32%nat).
+  = Some ([32000000000; 30998465585; 29995467527; 16997511063], [0; 8; 44; 1004], 32%nat,
+          [32000000000; 31000000000; 29000000000; 17000000000]).
 Proof.
   split; [exact asm_epoch_inv|]. split; [exact asm_mid_bounds|]. split.
   - destruct (Epoch.process_epoch asm_E Altair asm_state) as [st'|] eqn:H; [|vm_compute in H; discriminate].
@@ -85,3 +99,29 @@ Proof.
   - by_vm.
 Qed.
 Print Assumptions assembly_nonvacuous.
+
+(* ---- one slot step across the epoch boundary (slot 63 -> 64), the context computed from the state at hand ---- *)
+Definition asm_ctx_of (_ : fork) (st : BeaconState) : EpochCtx := asm_ctx st.
+Definition asm_electra : N := FAR_FUTURE_EPOCH.
+
+Lemma asm_step_ok : StepOk asm_E asm_pk_ok asm_electra asm_ctx_of Altair asm_pre.
+Proof.
+  constructor; try by_vm.
+  - intros _. rewrite asm_state_eq. split; [exact asm_epoch_inv|exact asm_mid_bounds].
+  - intros s2 H. vm_compute in H. inversion H; subst s2. cbv zeta.
+    constructor; try by_vm; intros Hf; discriminate Hf.
+Qed.
+
+Example slot_step_nonvacuous :
+  StepOk asm_E asm_pk_ok asm_electra asm_ctx_of Altair asm_pre /\
+  (exists r, Transition.slot_step asm_E Altair asm_pre = Some r /\
+             EpochPipeline.slot_step asm_E asm_pk_ok asm_electra PROPOSER_FUEL asm_ctx_of Altair asm_pre = Ok r) /\
+  option_map (fun r => (fork_idx (fst r), slot (snd r))) (Transition.slot_step asm_E Altair asm_pre) = Some (1, 64).
+Proof.
+  split; [exact asm_step_ok|]. split.
+  - destruct (Transition.slot_step asm_E Altair asm_pre) as [r|] eqn:H; [|vm_compute in H; discriminate].
+    exists r. split; [reflexivity|].
+    apply (slot_step_refines_partial asm_E asm_pk_ok asm_electra PROPOSER_FUEL asm_ctx_of Altair asm_pre r asm_step_ok (le_n _) H).
+  - by_vm.
+Qed.
+Print Assumptions slot_step_nonvacuous.
